@@ -50,6 +50,12 @@ def layouts(n, tier):
             out.append((pts, g))
     for pts in LINES.get(n, [])[: (1 if tier == "quick" else 9)]:
         out.append((pts, 16))
+    # locations OUTSIDE the unit square (hand-supplied raw coordinates, normal / custom samplers): distances exceed
+    # the generator's initial "distances" fill value sqrt(2)*(max_loc-min_loc), so bookkeeping that starts a running
+    # minimum from that placeholder is exposed
+    if n <= 6 and not (n == 6):
+        pts, g = embed.template(n, 0, 0)
+        out.append((pts, 2))
     return out
 
 
